@@ -158,6 +158,10 @@ impl Fabric {
             if n == 0 {
                 g.dropped += 1;
             }
+            if std::env::var_os("VERIF_FABRIC_TRACE").is_some() {
+                let at = g.start.map(|s| s.elapsed()).unwrap_or_default();
+                eprintln!("pkt t={:?} {}->{} len={} n={}", at, src, dst_port, data.len(), n);
+            }
             if g.log_enabled {
                 let at = g.start.map(|s| s.elapsed()).unwrap_or_default();
                 g.log.push(PacketLog { at, src, dst: dst_port, len: data.len(), delivered: n > 0 });
@@ -261,17 +265,32 @@ impl quinn::AsyncUdpSocket for FabricSocket {
         Ok(addr(self.port))
     }
 
+    // quinn-proto 0.11.18 re-sends an Initial-space CONNECTION_CLOSE forever when a handshake is
+    // aborted and only one datagram per transmit is allowed (no GSO): the close flag is cleared
+    // only once the Handshake-space close has been written into a second datagram. Linux sockets
+    // offer GSO batches of 10; so does the fabric.
+    fn max_transmit_segments(&self) -> usize {
+        10
+    }
+
     fn may_fragment(&self) -> bool {
         false
     }
 }
+
+/// When set, the next endpoint created gets this fabric port instead of its UDP socket's port
+/// (restart of a node at the address it had before).
+pub static NEXT_PORT: Mutex<Option<u16>> = Mutex::new(None);
 
 /// Installs the anemo socket-injection factory: every `Endpoint::new` in this process gets a
 /// fabric socket at the port of the UDP socket it was given (which is then unused).
 pub fn install(fabric: &Arc<Fabric>) {
     let f = fabric.clone();
     anemo::verif::set_socket_factory(Some(Box::new(move |sock: &std::net::UdpSocket| {
-        let port = sock.local_addr().ok()?.port();
+        let port = match NEXT_PORT.lock().unwrap().take() {
+            Some(p) => p,
+            None => sock.local_addr().ok()?.port(),
+        };
         Some(f.socket(port) as Arc<dyn quinn::AsyncUdpSocket>)
     })));
 }
